@@ -114,6 +114,8 @@ type OlvmTweak struct {
 	Currency       string        // amount currency (default OLT)
 	FeeCurrency    string        // fee currency (default OLT)
 	ExtraSig       bool          // a second signature
+	NilChainID     bool          // payload without chain id
+	SigLen         int           // length of the signature field (default 65)
 }
 
 // OlvmTx builds the network bytes of an OLVM transaction the way web3/utils.EthToOLSignedTx does:
@@ -140,6 +142,9 @@ func (w *OlvmWorld) OlvmTx(from *EthAcct, to *keys.Address, nonce uint64, value 
 	}
 	msg := aolvm.Transaction{Nonce: nonce, From: fromAddr, To: to, Amount: action.Amount{Currency: cur, Value: *balance.NewAmountFromBigInt(new(big.Int).Set(value))},
 		Data: data, ChainID: new(big.Int).Set(pcid)}
+	if tw.NilChainID {
+		msg.ChainID = nil
+	}
 	payload, err := msg.Marshal()
 	if err != nil {
 		panic(err)
@@ -164,6 +169,9 @@ func (w *OlvmWorld) OlvmTx(from *EthAcct, to *keys.Address, nonce uint64, value 
 	sig, err := ethcrypto.Sign(h[:], key.Key)
 	if err != nil {
 		panic(err)
+	}
+	if tw.SigLen > 0 && tw.SigLen != len(sig) {
+		sig = append(sig, make([]byte, 8)...)[:tw.SigLen]
 	}
 	st := action.SignedTx{RawTx: raw, Signatures: []action.Signature{{Signer: key.Pub, Signed: sig}}}
 	if tw.ExtraSig {
